@@ -31,6 +31,16 @@ MUST3 = [
 ]
 
 
+# 4 formed nodes: a leave learned SECOND-HAND must still be passed on.  Member 3 leaves, only node 0 hears the intent; nodes 1
+# and 2 see it fail; node 1 learns the leave from node 0 by push/pull; node 0 dies; node 2 can now learn it only from node 1.
+MUST4 = [
+    [{"a": "leave1", "n": 3}, {"a": "deliver", "n": 0, "ty": 2, "x": 3, "lt": 2, "prune": 0, "w": 0}, {"a": "leave2", "n": 3},
+     {"a": "crash", "n": 3}, {"a": "mlleave", "n": 0, "x": 3, "w": 0}, {"a": "mlleave", "n": 1, "x": 3, "w": 0},
+     {"a": "mlleave", "n": 2, "x": 3, "w": 0}, {"a": "pushpull", "n": 1, "m": 0, "w": 0}, {"a": "crash", "n": 0},
+     {"a": "mlleave", "n": 1, "x": 0, "w": 0}, {"a": "mlleave", "n": 2, "x": 0, "w": 0}, {"a": "sync"}],
+]
+
+
 def build(ctx):
     ov = vlib.overlay_for(ctx, hook_pkgs=[("serf", "serf_state")])
     return vlib.go_build(ctx, "cluster", overlay=ov)
@@ -84,13 +94,18 @@ def run_agreement(ctx, binary=None):
     cov = {"cluster_model": [{"constants": "NN=%d MaxOps=%d MaxClock=%d MaxSpurious=%d Formed=%s" % c[:5],
                                "states": r.distinct, "transitions": r.generated} for c, r in mcs],
            "cluster_traces": 0, "cluster_lines": 0, "cluster_divergences": 0, "cluster_not_quiet": 0, "cluster_quiet_judged": 0}
-    plans = [(3, True, 4, 200 if ctx.thorough() else 40, 50), (2, False, 4, 160 if ctx.thorough() else 30, 50)]
+    plans = [(3, True, 4, 200 if ctx.thorough() else 40, 50), (2, False, 4, 160 if ctx.thorough() else 30, 50), (4, True, 4, 0, 50)]
     samples = []
     for nn, formed, ops, num, depth in plans:
         gcfg = cfg(nn, ops, 30, 1, formed, False)
-        _, scheds = vlib.simulate_schedules(ctx, "Gen_SerfCluster", gcfg + "INIT GenInit\nNEXT GenNext\n", num, depth, timeout=3000)
+        if num:
+            _, scheds = vlib.simulate_schedules(ctx, "Gen_SerfCluster", gcfg + "INIT GenInit\nNEXT GenNext\n", num, depth, timeout=3000)
+        else:
+            scheds = []
         if nn == 3 and formed:
             scheds = MUST3 + scheds
+        if nn == 4 and formed:
+            scheds = MUST4 + scheds
         tag = "%d%s" % (nn, "f" if formed else "s")
         tp, summ = execute(ctx, binary, nn, formed, scheds, tag)
         tcfg = "SPECIFICATION TraceSpec\nINVARIANT Done\n" + cfg(nn, 100000, 100000, 100000, formed, False)
